@@ -185,6 +185,7 @@ type World struct {
 	SignKey      interface{}                         // the server's signing key (ID tokens, JWT access tokens)
 	TokenSessFn  func(subject string) fosite.Session // session handed to NewAccessRequest (nil = w.sess(subject))
 	assertionSeq int
+	grantOnly    []string              // password grant: the scopes the application grants (nil = every requested one)
 	SessionFn    func() fosite.Session // session handed to NewAuthorizeResponse / NewDeviceResponse (nil = NewSess(Subject))
 	ExtraAuthz   url.Values            // additional authorization request parameters (prompt, max_age, ...)
 	Assertions   []string              // client assertions the harness presented (secrets for C20)
